@@ -22,6 +22,19 @@ different length, other residues/lengths, fewer records).  Only when both files 
 may they be used, so only then are they required to stem from the current content; in every other state their
 content is arbitrary.  The oracle is the one above, over the model of the current content; an error is an
 allowed outcome of a load, but the command must not fail only because such files are present.
+
+Several output assemblies part: "every FASTA file written" by one run of the command.  Pretext AGPs whose tags
+(Haplotig / Contaminant / FalseDuplicate, Hap1 / Hap2 with and without Primary, Target) split the result into
+two or more output assemblies; every x.*.fa is judged against the x.*.agp of the same name beside it as above, the
+.fa and .agp files of a run pair up one to one, and "the AGP beside the FASTA lists the same rows [as the
+assembly]": its objects and rows equal those of the file of that name written by the same command with
+--output x.agp (the command's own AGP rendering of that assembly).
+
+State carried between calls part: a FastaIndex outlives a FastaStream.  Several streams are written one after the
+other through one FastaIndex object (and through a second index object on the same file), differing in gap
+character (the default, b"N", b"n", b"-", b"x"), line length and strands, with the same gap lengths and intervals
+recurring; every stream is judged on its own: gaps are that many N, or that many of the stream's own gap
+character where the stream was configured with one.
 """
 
 import io
@@ -62,10 +75,13 @@ def make_index(path, bs, idx):
     return fi
 
 
-def stream_check(fi, seqs, scaffolds, line_length, use_assembly):
-    """scaffolds: [(name, [row spec])] -> messages"""
+def stream_check(fi, seqs, scaffolds, line_length, use_assembly, gap=None):
+    """scaffolds: [(name, [row spec])] -> messages; gap: the stream's gap character (str), None = not configured"""
     out = io.BytesIO()
-    fs = FastaStream(out, fi, line_length=line_length)
+    if gap is None:
+        fs = FastaStream(out, fi, line_length=line_length)
+    else:
+        fs = FastaStream(out, fi, line_length=line_length, gap_character=gap.encode("latin-1"))
     objs = [scaffold_from(name, specs) for name, specs in scaffolds]
     try:
         if use_assembly:
@@ -75,8 +91,37 @@ def stream_check(fi, seqs, scaffolds, line_length, use_assembly):
                 fs.write_scaffold(sc)
     except Exception as e:  # noqa: BLE001
         return [f"streaming raised {e!r} for rows that lie within the indexed sequences"]
-    want = [(name, G.apply_rows(seqs, specs)) for name, specs in scaffolds]
+    gap_bytes = b"N" if gap is None else gap.encode("latin-1")
+    want = [(name, G.apply_rows(seqs, specs, gap_bytes)) for name, specs in scaffolds]
     return G.compare_written_fasta(out.getvalue(), want, line_length)
+
+
+def describe_gap(gap):
+    return "the default gap character" if gap is None else f"gap_character={gap.encode('latin-1')!r}"
+
+
+def streams_check(path, idx, bs, seqs, steps):
+    """
+    steps: [{"scaffolds", "line_length", "assembly", "gap": None | str, "index": 0 | 1}] written one after the other;
+    steps with the same "index" share one FastaIndex object (two objects on the same file).  Each stream is judged
+    on its own.  -> messages
+    """
+    fis = {}
+    try:
+        for i, st in enumerate(steps):
+            fi = fis.get(st["index"])
+            if fi is None:
+                fi = fis[st["index"]] = make_index(path, bs, idx)
+            msgs = stream_check(fi, seqs, [(n, r) for n, r in st["scaffolds"]], st["line_length"], st["assembly"], st["gap"])
+            if msgs:
+                before = [f"{describe_gap(p['gap'])} on {'the same' if p['index'] == st['index'] else 'another'} FastaIndex object" for p in steps[:i]]
+                pre = f"stream {i + 1} of {len(steps)} ({describe_gap(st['gap'])}, line length {st['line_length']}, buffer {bs})"
+                pre += f" after earlier streams [{'; '.join(before)}]: " if before else ": "
+                return [pre + m for m in msgs]
+    finally:
+        for fi in fis.values():
+            close_index(fi)
+    return []
 
 
 def replay(inp):
@@ -86,7 +131,9 @@ def replay(inp):
                 case, ptxt, _ = G.random_cli_case(random.Random(inp["gen"]), big=True)
             else:
                 case, ptxt = G.FastaCase.from_spec(inp["case"]), inp["pretext"]
-            if "cache" in inp:
+            if inp.get("multi"):
+                msgs, _, _ = check_cli_multi(d, case, ptxt)
+            elif "cache" in inp:
                 msgs, _ = check_cli_cached(d, case, ptxt, inp["cache"])
             else:
                 msgs, _ = check_cli(d, case, ptxt)
@@ -101,6 +148,9 @@ def replay(inp):
             idx, _ = index_fasta_file(path, inp["index_buffer"])
         except Exception as e:  # noqa: BLE001
             return f"index_fasta_file raised {e!r}"
+        if inp["kind"] == "streams":
+            msgs = streams_check(path, idx, inp["buffer"], case.seqs(), inp["steps"])
+            return msgs[0] if msgs else None
         fi = make_index(path, inp["buffer"], idx)
         try:
             msgs = stream_check(fi, case.seqs(), [(n, s) for n, s in inp["scaffolds"]], inp["line_length"], inp.get("assembly", False))
@@ -155,6 +205,177 @@ def judge_cli(res, case):
                 msgs.append(f"{fa}: record {h} has {sum(map(len, lines))} residues, AGP object length is {len(seq)}")
         msgs += [f"{fa} vs {agp_name}: {m}" for m in G.compare_written_fasta(res["files"][fa], want, 60)]
     return msgs, n_records
+
+
+# ----------------------------------------------------------------------------------------------------------
+# runs of the command that write several output assemblies
+
+TAG_MODES = ("extra", "haps", "primary", "target", "haps+extra")
+
+
+def retag(rng, scaffolds, mode):
+    """
+    scaffolds of G.random_cli_case ([[(name, start, end, strand, tags)]]) with the tags that make pretext-to-asm
+    write further assemblies: extra = Haplotig / Contaminant / FalseDuplicate scaffolds beside untagged ones;
+    haps = Hap1 / Hap2; primary = the same with one Painted Primary scaffold; target = Target on some scaffolds
+    (the others become contaminants)
+    """
+    n = len(scaffolds)
+    special = rng.randrange(n)  # this one is always tagged, the next one never: two assemblies whenever n >= 2
+    first_hap = rng.randrange(2)
+    out = []
+    for i, rows in enumerate(scaffolds):
+        tags = ["Painted"] if any("Painted" in r[4] for r in rows) else []
+        plain = i == (special + 1) % n and n > 1
+        if mode in ("haps", "primary", "haps+extra"):
+            tags.append(("Hap1", "Hap2")[(i + first_hap) % 2])
+        if mode == "primary" and i == special:
+            tags = ["Painted", tags[-1], "Primary"]
+        if mode in ("extra", "haps+extra") and not plain and (i == special or rng.random() < 0.35):
+            extra = rng.choice(("Haplotig", "Haplotig", "Contaminant", "FalseDuplicate"))
+            tags = [t for t in tags if t != "Painted" or rng.random() < 0.2] + [extra]
+        if mode == "target" and not plain and (i == special or rng.random() < 0.5):
+            tags.append("Target")
+        out.append([(name, s, e, strand, tags) for name, s, e, strand, _ in rows])
+    return out
+
+
+def random_multi_cli_case(rng, mode):
+    """-> (FastaCase, Pretext AGP text) with at least two Pretext scaffolds"""
+    for _ in range(20):
+        case, _, scaffolds = G.random_cli_case(rng)
+        if len(scaffolds) >= 2:
+            break
+    return case, G.pretext_agp(retag(rng, scaffolds, mode), rng.choice((1.0, 1.0, 3.5)))
+
+
+def agp_rows(data):
+    """objects and rows of an AGP file as written, without comment lines: [(object, [columns])]"""
+    objects, _ = G.parse_agp_text(data.decode())
+    return [(name, [r["cols"] for r in rows]) for name, rows in objects]
+
+
+def check_cli_multi(tmp, case, pretext_text):
+    """
+    one run with --output x.fa, one with --output x.agp -> (messages, FASTA records checked, FASTA files written)
+    """
+    tmp = pathlib.Path(tmp)
+    res = G.run_pretext_cli(tmp, case.data(), pretext_text, output="x.fa")
+    msgs, nrec = judge_cli(res, case)
+    if res["exception"] or res["exit_code"] != 0:
+        return msgs, nrec, 0
+    fastas = sorted(n for n in res["files"] if n.startswith("x.") and n.endswith(".fa"))
+    agps = sorted(n for n in res["files"] if n.startswith("x.") and n.endswith(".agp"))
+    for a in agps:
+        if a[: -len(".agp")] + ".fa" not in fastas:
+            msgs.append(f"{a} written with --output x.fa has no FASTA file beside it (FASTA files: {fastas})")
+    sub = tmp / "as_agp"
+    sub.mkdir()
+    try:
+        ref = G.run_pretext_cli(sub, case.data(), pretext_text, output="x.agp")
+    finally:
+        shutil.rmtree(sub)
+    if ref["exception"] or ref["exit_code"] != 0:
+        msgs.append(f"pretext-to-asm exits 0 with --output x.fa but fails with --output x.agp ({ref['exception'] or ref['exit_code']})")
+        return msgs, nrec, len(fastas)
+    ref_agps = sorted(n for n in ref["files"] if n.startswith("x.") and n.endswith(".agp"))
+    if ref_agps != [f[: -len(".fa")] + ".agp" for f in fastas]:
+        msgs.append(f"--output x.fa wrote {fastas}, --output x.agp wrote {ref_agps}: not the same set of assemblies")
+    for a in agps:
+        if a in ref["files"]:
+            got, want = agp_rows(res["files"][a]), agp_rows(ref["files"][a])
+            if got != want:
+                gd, wd = ([(n, len(r), r[-1][2] if r else 0) for n, r in x][:6] for x in (got, want))
+                msgs.append(
+                    f"{a} beside {a[: -len('.agp')]}.fa does not list the rows of that assembly: it has (object, rows, end) {gd}, "
+                    f"the file of that name written with --output x.agp has {wd}"
+                )
+    return msgs, nrec, len(fastas)
+
+
+# ----------------------------------------------------------------------------------------------------------
+# several streams through one FastaIndex
+
+GAP_CHARS = (None, "n", "N", "-", "x")
+
+
+def flipped(scaffolds):
+    """the same intervals and gaps with every strand reversed (unknown stays unknown)"""
+    return [(name, [r if r[0] == "G" else [*r[:4], -r[4], *r[5:]] for r in rows]) for name, rows in scaffolds]
+
+
+def gap_panel(case, bs, rng=None):
+    """one scaffold that alternates intervals of the records with gaps of lengths around the buffer size"""
+    lengths = [1, 2, bs - 1, bs, bs + 1, 2 * bs, 2 * bs + 1, 3 * bs + 2, 40]
+    lengths = [g for g in lengths if 0 < g <= 2000]
+    rows = []
+    for i, g in enumerate(lengths):
+        r = case.records[i % len(case.records)]
+        L = len(r.seq)
+        if rng is None:
+            s, e = 1 + i % L, L
+        else:
+            s = rng.randint(1, L)
+            e = rng.randint(s, L)
+        rows += [["F", r.name, s, e, (1, -1, 0)[i % 3]], ["G", g, "scaffold"]]
+    return [("p1", rows), ("p2", [["G", bs, "contig"], ["G", 1, "scaffold"]])]
+
+
+def fixed_step_sequences(scs):
+    """gap characters x index objects: every ordered pair, and longer sequences that come back to the default"""
+    def st(gap, index=0, ll=60, sc=scs, asm=True):
+        return {"scaffolds": sc, "line_length": ll, "assembly": asm, "gap": gap, "index": index}
+
+    for a in GAP_CHARS:
+        for b in GAP_CHARS:
+            if a != b:
+                yield [st(a), st(b)]
+    yield [st("n"), st(None, 1), st(None)]
+    yield [st(None), st("n", 1), st(None, 1, 7), st(None, 0, 7)]
+    yield [st("n", ll=3), st("N"), st(None, sc=flipped(scs)), st("-", asm=False), st(None, ll=5)]
+    yield [st(None, sc=flipped(scs)), st(None), st("x", sc=flipped(scs)), st(None, sc=flipped(scs))]
+
+
+def random_scaffolds(rng, case, bs):
+    scs = []
+    for si in range(rng.randint(1, 3)):
+        rows = []
+        for _ in range(rng.randint(1, 6)):
+            if rng.random() < 0.45:
+                rows.append(["G", rng.choice((1, 2, bs - 1 or 1, bs, bs + 1, 2 * bs, 3 * bs + 1, 200)), "scaffold"])
+            else:
+                r = rng.choice(case.records)
+                L = len(r.seq)
+                s = rng.choice((1, rng.randint(1, L)))
+                e = rng.choice((L, rng.randint(s, L), min(L, s + bs - 1)))
+                rows.append(["F", r.name, s, e, rng.choice((1, -1, -1, 0))])
+        scs.append((f"sc{si + 1}", rows))
+    return scs
+
+
+def random_steps(rng, case, bs):
+    scs = random_scaffolds(rng, case, bs)
+    steps = []
+    for _ in range(rng.randint(2, 5)):
+        how = rng.random()
+        if how < 0.25:
+            scs = random_scaffolds(rng, case, bs)
+        elif how < 0.5:
+            scs = flipped(scs)
+        steps.append(
+            {
+                "scaffolds": scs,
+                "line_length": rng.choice((60, 60, 1, 3, 7, case.width)),
+                "assembly": rng.random() < 0.7,
+                "gap": rng.choice(GAP_CHARS + (None, None, "n")),
+                "index": int(rng.random() < 0.25),
+            }
+        )
+    return steps
+
+
+def steps_nontrivial(steps):
+    return len(steps) > 1 and any(s[0] == "G" and s[1] > 0 for st in steps[1:] for _, rows in st["scaffolds"] for s in rows)
 
 
 # ----------------------------------------------------------------------------------------------------------
@@ -402,7 +623,11 @@ def run(tier, seed, **opts):
         "newer files are always those of the current content.  One evaluation = one streamed assembly, one CLI run or one "
         "prepared directory loaded twice; non-trivial = distinct (file, assembly, buffer, line length[, earlier content, "
         "state of the two index files]) with at least one non-empty record (CLI: run exited 0 and wrote records; loads: "
-        "at least one load delivered an index)",
+        "at least one load delivered an index); runs of the command on Pretext AGPs with Haplotig / Contaminant / "
+        "FalseDuplicate / Hap1 / Hap2 / Primary / Target tags (non-trivial = two or more FASTA files with records), every "
+        ".fa against the .agp of its own name and that .agp against the same assembly written with --output x.agp; "
+        "sequences of 2-5 streams through one FastaIndex object (or two on one file) with different gap characters, "
+        "line lengths and strands (non-trivial = a stream after the first writes a gap)",
         max_samples=7,
     )
     line_lengths_all = (1, 2, 3, 5, 7, 60)
@@ -561,6 +786,24 @@ def run(tier, seed, **opts):
                 if msgs:
                     col.fail(msgs[0], inp)
                 col.case(("cli", case.key(), ptxt, kind, repr((fai, agp))), nontrivial=nrec > 0, sample=inp if k == 0 and j == 0 else None)
+        # ---- 7. runs of the command that write several output assemblies (tags in the Pretext AGP)
+        n_multi = 15 if quick else 1500
+        for k in range(n_multi):
+            if col.full:
+                break
+            mode = TAG_MODES[k % len(TAG_MODES)]
+            case, ptxt = random_multi_cli_case(rng, mode)
+            sub = d / f"multi{k}"
+            sub.mkdir()
+            try:
+                msgs, nrec, nfa = check_cli_multi(sub, case, ptxt)
+            finally:
+                shutil.rmtree(sub)
+            inp = {"kind": "cli", "case": case.spec(), "pretext": ptxt, "multi": True}
+            if msgs:
+                col.fail(msgs[0], inp)
+            # non-trivial: two or more FASTA files with records
+            col.case(("multi", case.key(), ptxt), nontrivial=nfa > 1 and nrec > 0, sample=inp if k == 1 else None)
         # ---- 6. FastaIndex.auto_load + FastaStream with index files in every state beside the FASTA
         base = [base_case(3, b"\n", True), base_case(60, b"\r\n", True), base_case(5, b"\n", False)]
         # all kinds of earlier content x all states for the first file(s); one kind per state for the others
@@ -595,6 +838,35 @@ def run(tier, seed, **opts):
                         col.fail(msgs[0], inp)
                     col.case(("cached", case.key(), kind, repr((fai, agp)), bs, ll), nontrivial=loads > 0, sample=inp if n == 30 else None)
         shutil.rmtree(sub)
+        # ---- 8. several streams, one after the other, through one FastaIndex (kept last: state that leaks out of
+        #         an index object must not blur the parts above)
+        n_streams = 0
+        files = [base_case(3, b"\n", True)] if quick else [base_case(3, b"\n", True), base_case(60, b"\r\n", True), base_case(5, b"\n", False)]
+        files += [G.random_case(rng, max_len=120) for _ in range(1 if quick else 40)]
+        for ci, case in enumerate(files):
+            seqs = case.seqs()
+            case.write(path)
+            try:
+                idx, _ = index_fasta_file(path, 250_000)
+            except Exception:  # noqa: BLE001
+                G.remove_with_caches(path)
+                continue  # reported by the parts above
+            for bs in (1, 3, 16, 250_000) if quick else (1, 2, 3, 4, 5, 7, 16, 61, 250_000):
+                plans = list(fixed_step_sequences(gap_panel(case, bs, rng if ci else None)))
+                if quick and ci:
+                    plans = plans[ci % 4 :: 4]
+                plans += [random_steps(rng, case, bs) for _ in range(3 if quick else 60)]
+                for pi, steps in enumerate(plans):
+                    if col.full:
+                        break
+                    n_streams += 1
+                    msgs = streams_check(path, idx, bs, seqs, steps)
+                    inp = {"kind": "streams", "case": case.spec(), "index_buffer": 250_000, "buffer": bs, "steps": steps}
+                    if msgs:
+                        col.fail(msgs[0], inp)
+                    key = ("streams", case.key(), bs, repr(steps))
+                    col.case(key, nontrivial=steps_nontrivial(steps), sample=inp if (ci, bs, pi) == (0, 3, 0) else None)
+            G.remove_with_caches(path)
     return col.result(
         bounds=(
             "direct: records of 12/5/1 residues in 24 layouts, all intervals, 3 strands, buffers "
@@ -607,7 +879,10 @@ def run(tier, seed, **opts):
             f"files ({len(CLI_CACHES)} fixed (fai, agp) states" + ("" if quick else " and random ones") + f"); {n} prepared directories for auto_load: "
             f"{len(all_states)} (fai, agp) states (time differences "
             + ("-3600, -0.5, 0, +0.1 s" if quick else "-3600, -3, -0.5, -0.001, 0, +0.1, +2, +3600 s")
-            + f") x <= 4 kinds of earlier content over {len(cases)} files"
+            + f") x <= 4 kinds of earlier content over {len(cases)} files; {n_multi} pretext-to-asm runs whose Pretext AGP carries "
+            "Haplotig/Contaminant/FalseDuplicate, Hap1/Hap2 (+Primary) or Target tags (1-4 output assemblies), each also run with "
+            f"--output x.agp; {n_streams} sequences of 2-5 streams through one or two FastaIndex objects on one file (gap characters "
+            f"default,N,n,-,x in every ordered pair; gaps 1..3*buffer+2 and 40; strands flipped between streams) over {len(files)} files"
         ),
         exhaustive=False,
     )
